@@ -1,14 +1,25 @@
-import os, sys
+"""setup_cmd: build the Coq development of every claimed property and warm the Go build cache.
+Tolerant: a file that does not build is reported, the check of its property will report it again."""
+import json, os, sys
 sys.path.insert(0, os.path.dirname(os.path.abspath(__file__)))
 import vlib
-ok, log = vlib.coq_make([f[:-2] + ".vo" for f in vlib.coq_project_files()], timeout=3000)
-print(log[-2000:])
+claimed = sorted(n[:-5] for n in os.listdir(os.path.join(vlib.VERIF, "manifest.d")) if n.endswith(".json"))
+files = vlib.coq_project_files()
+targets = [f[:-2] + ".vo" for f in files
+           if f.startswith(("common/", "gen/")) or any(os.path.basename(f).startswith(p + "_") for p in claimed)]
+ok, log = vlib.coq_make(targets, timeout=3000)
+print(log[-1500:])
 if not ok:
-    sys.exit(1)
+    print("setup: some Coq targets failed; building per property")
+    for p in claimed:
+        t = [f[:-2] + ".vo" for f in files if os.path.basename(f).startswith(p + "_")]
+        ok1, _ = vlib.coq_make(t, timeout=1500)
+        print("  ", p, "ok" if ok1 else "FAILED")
 rc, so, se, dt = vlib.run(["go", "build", "-tags", vlib.TAGS, "./..."], cwd=vlib.REPO, env=vlib.go_env(), timeout=3000)
 print("go build warm: rc=%d %.0fs %s" % (rc, dt, se[-500:]))
+pkgs = sorted(set(os.path.relpath(r, os.path.join(vlib.VERIF, "harness")) for r, d, fs in os.walk(os.path.join(vlib.VERIF, "harness")) if any(f == "common_test.go" for f in fs)))
 with vlib.Scratch() as sc:
-    for pkg in ("control",):
-        b, l = vlib.build_go_test_binary(sc, pkg, ["control/common_test.go"])
+    for pkg in pkgs:
+        b, l = vlib.build_go_test_binary(sc, pkg, [pkg + "/common_test.go"])
         print("warm test build", pkg, bool(b))
 sys.exit(0)
